@@ -71,7 +71,7 @@ def gen_targets(t, rng, n):
         for k in range(0, 9):
             out.append("/" + "../" * k + name)
             out.append("/" + "../" * k + name.replace(".txt", "").replace(".html", ""))      # .html fallback on secrets
-        for d in dirs[:3]:
+        for d in dirs[:3] + [x for x in dirs if "/." in x][:4]:
             depth = d.count("/")
             for extra in (0, 1, 2, 3):
                 out.append(d + "/" + "../" * (depth + extra) + name)
@@ -84,6 +84,11 @@ def gen_targets(t, rng, n):
         for ld in linkdirs[:2]:
             for extra in (1, 2, 3, 4):
                 out.append(ld + "/" + "../" * extra + name)
+    # an absolute path glued behind extra slashes ("//etc/hostname"): a path join that lets an absolute argument replace the base
+    for sp in sorted(t.secrets)[:6] + ["/etc/hostname", "/etc/passwd"]:
+        for lead in ("/", "//", "///", "/./", "/%2F", "/.//"):
+            out.append(lead + sp.lstrip("/"))
+            out.append(lead + sp)
     for i in range(n):
         segs = []
         for _ in range(rng.range(1, 7)):
@@ -172,6 +177,13 @@ def run(c):
         t = treegen.generate(rng.fork("tree", ti), depth=depth, outside_links=True, tag="c01-%d" % ti)
         srv = None
         try:
+            # directories that often get special treatment (exemptions for ACME challenges, hidden files, VCS data ...)
+            for special in ("/.well-known", "/.well-known/acme-challenge", "/.git", "/.hidden", "/static", "/assets", "/cgi-bin"):
+                if special not in t.dirs:
+                    t.add_dir(special)
+                    mk = treegen.marker("MK", "c01-%d" % ti, special)
+                    t.add_file(special + "/inside.txt", mk + b" inside " + special.encode())
+                    t.markers[mk] = special + "/inside.txt"
             targets = gen_targets(t, rng, per_tree)
             work = []
             for i, tg in enumerate(targets):
